@@ -158,6 +158,17 @@ def histories(asc):
             h["other"].append(name)
     for h in out.values():
         h["gens"].sort()
+        # a generation exists when the chain file lists its manifest (reading adopted, DESIGN.md section 9): a manifest
+        # file without chain entry - the leftover of an interrupted create - is kept apart
+        h["unlisted"] = []
+        if h["chain"] is not None:
+            try:
+                root = ET.parse(io.BytesIO(h["chain"])).getroot()
+                listed = {ch.text for hl in root for ch in hl if ch.tag.split("}", 1)[-1] == "path"}
+                h["unlisted"] = [g for g in h["gens"] if g[1] not in listed]
+                h["gens"] = [g for g in h["gens"] if g[1] in listed]
+            except ET.ParseError:
+                pass
     return out
 
 
